@@ -1,8 +1,10 @@
 SPECIFICATION Spec
 CONSTANTS MaxRecs = 4 MaxCalls = 5 MaxRuns = 3 CommitBeforeReturn = TRUE TolerantVersionRead = TRUE
-          AtomicUpgrade = TRUE Legacy = FALSE
+          AtomicUpgrade = TRUE Legacy = FALSE MaxBatches = 0 GateResetOnError = TRUE ReloadWait = 0
 INVARIANT TypeOK
 INVARIANT AckedDurable
 INVARIANT NoPartialRecord
 INVARIANT ReopenOk
 INVARIANT PseudonymVerifies
+INVARIANT RebuiltHasAcked
+INVARIANT RebuiltVerifies
